@@ -1278,7 +1278,7 @@ package scipipe
 
 //@ define joinPort(portInfos map[string]*PortInfo, k string) bool = k in portInfos && portInfos[k].join && portInfos[k].joinSep != ""
 //@ define subChan(inIPs map[string]*FileIP, k string) chan *FileIP = inIPs[k].SubStream.Chan
-//@ define wfJoinInputs(portInfos map[string]*PortInfo, inIPs map[string]*FileIP) bool = (forall k string :: k in portInfos ==> portInfos[k] != nil) && (forall k string :: joinPort(portInfos, k) ==> allocated(inIPs[k]) && allocated(inIPs[k].SubStream) && allocated(subChan(inIPs, k))) && (forall k1 string, k2 string :: joinPort(portInfos, k1) && joinPort(portInfos, k2) && k1 != k2 ==> subChan(inIPs, k1) != subChan(inIPs, k2))
+//@ define wfJoinInputs(portInfos map[string]*PortInfo, inIPs map[string]*FileIP) bool = (forall k string :: k in portInfos ==> portInfos[k] != nil && allocated(portInfos[k])) && (forall k string :: joinPort(portInfos, k) ==> allocated(inIPs[k]) && allocated(inIPs[k].SubStream) && allocated(subChan(inIPs, k))) && (forall k1 string, k2 string :: joinPort(portInfos, k1) && joinPort(portInfos, k2) && k1 != k2 ==> subChan(inIPs, k1) != subChan(inIPs, k2))
 
 //@ func NewTask(workflow, process, name, cmdPat, inIPs, outPathFuncs, portInfos, params, tags, prepend, customExecute, cores) (t)
 //@   props C04 C06 C08 C09 C17 C18
@@ -1310,12 +1310,12 @@ package scipipe
 //@   loop 1 invariant others-drained: forall k string :: $visited0[k] && k != ptName && joinPort(portInfos, k) ==> k in t.subStreamIPs && chanRecvN(subChan(inIPs, k)) == chanTotal(subChan(inIPs, k)) && len(t.subStreamIPs[k]) == chanTotal(subChan(inIPs, k)) - old(chanRecvN(subChan(inIPs, k))) && (forall j int :: 0 <= j && j < len(t.subStreamIPs[k]) ==> t.subStreamIPs[k][j] == chanInAt(subChan(inIPs, k), old(chanRecvN(subChan(inIPs, k))) + j))
 //@   loop 1 invariant not-yet: forall k string :: joinPort(portInfos, k) && !$visited0[k] ==> chanRecvN(subChan(inIPs, k)) == old(chanRecvN(subChan(inIPs, k)))
 //@   loop 1 invariant nothing-sent: forall c chan *FileIP :: !fresh(c) ==> chanSentN(c) == old(chanSentN(c))
-//@   loop 2 invariant fresh: t != nil && fresh(t) && fresh(t.subStreamIPs) && fresh(t.OutIPs) && t.OutIPs != nil && t.OutIPs != inIPs
+//@   loop 2 invariant fresh: t != nil && fresh(t) && allocated(t) && fresh(t.subStreamIPs) && allocated(t.subStreamIPs) && fresh(t.OutIPs) && allocated(t.OutIPs) && t.OutIPs != nil && t.OutIPs != inIPs && allocated(t.Done)
 //@   loop 2 invariant fields: t.Name == name && t.InIPs == inIPs && t.Params == params && t.Tags == tags && t.cores == cores && t.workflow == workflow && t.Process == process && t.CustomExecute == customExecute && t.portInfos == portInfos
 //@   loop 2 invariant done: t.Done != nil && fresh(t.Done) && chanCap(t.Done) == 0 && chanSentN(t.Done) == 0 && !chanClosed(t.Done)
 //@   loop 2 invariant vis: forall o string :: $visited[o] ==> o in outPathFuncs
 //@   loop 2 invariant cover: forall o string :: o in t.OutIPs <==> $visited[o]
-//@   loop 2 invariant valid: forall o string :: o in t.OutIPs ==> t.OutIPs[o] != nil && fresh(t.OutIPs[o]) && validPath(t.OutIPs[o].path)
+//@   loop 2 invariant valid: forall o string :: o in t.OutIPs ==> t.OutIPs[o] != nil && fresh(t.OutIPs[o]) && allocated(t.OutIPs[o]) && allocated(t.OutIPs[o].BaseIP) && validPath(t.OutIPs[o].path)
 //@   loop 2 invariant stream: forall o string :: o in t.OutIPs ==> (t.OutIPs[o].doStream <==> (o in portInfos && portInfos[o].doStream))
 //@   loop 2 invariant distinct: forall o1 string, o2 string :: o1 in t.OutIPs && o2 in t.OutIPs && o1 != o2 ==> t.OutIPs[o1] != t.OutIPs[o2]
 //@   loop 2 invariant drained: forall k string :: joinPort(portInfos, k) ==> k in t.subStreamIPs && chanRecvN(subChan(inIPs, k)) == chanTotal(subChan(inIPs, k)) && len(t.subStreamIPs[k]) == chanTotal(subChan(inIPs, k)) - old(chanRecvN(subChan(inIPs, k))) && (forall j int :: 0 <= j && j < len(t.subStreamIPs[k]) ==> t.subStreamIPs[k][j] == chanInAt(subChan(inIPs, k), old(chanRecvN(subChan(inIPs, k))) + j))
